@@ -1403,7 +1403,11 @@ static int cfg_parse_internal(cfg_t *cfg, int level, int force_state, cfg_opt_t 
 		}
 
 		if (tok == EOF) {
-			if (state != 0) {
+			/*
+			 * Only the top level, or the forced parse of a default
+			 * value, may end here.  A section needs its closing brace.
+			 */
+			if (state != 0 || (level > 0 && !force_opt)) {
 				cfg_error(cfg, _("premature end of file"));
 				goto error;
 			}
